@@ -231,6 +231,15 @@ theorem C02_number_seqnum (conv : Nat → Int) (durs : List Nat) (ts sd sn R : N
           injection h with h1 h2 h3
           exact ⟨h3.symm, by omega, by rw [h1, h2]⟩
 
+/-- … and the 32-bit `mfhd.sequence_number` field carries exactly that number whenever it can
+(`0 ≤ N < 2³²`; beyond that – a live stream whose start lies before about the year 1480 – the
+field holds `N mod 2³²`) -/
+theorem C02_seqnum_field (N : Int) :
+    (0 ≤ N → N < 4294967296 → servedSeq N = N) ∧ 0 ≤ servedSeq N ∧ servedSeq N < 4294967296 ∧
+      (N - servedSeq N) % 4294967296 = 0 := by
+  unfold servedSeq
+  refine ⟨fun h0 h1 => Int.emod_eq_of_lt h0 h1, by omega, by omega, by omega⟩
+
 /-- **decode time for `$Number$`**: the selected position's start is within half a
 segment of the requested timecode: `tc ≤ start + ⌊d/2⌋`; and unless the walk
 wrapped into the next loop (only possible when `tc` lies in the last
